@@ -22,6 +22,32 @@ def rule_window(ctx):
     protocol.reader_rows_table(ctx, "O7.1", {"window"}, "validate_rows")
 
 
+def rule_limit_bounds_every_rejection(ctx):
+    """
+    O7.5: "with a validation limit N a rejection is reported if and only if the offending row's number is at most N ...
+    N = 0 validates nothing": when a limit is set, a run in which no row up to N is rejected must not end with a rejection
+    that has no offending row - the end-of-data verdict of a check on the part of the data that was looked at.
+    """
+    from ..tablekit import decide_kinds
+
+    ctx.res.minimum("O7.5", 1)
+
+    def cell(ch):
+        run = protocol.reader_rows_run(ctx.model, ch, "validate()", 2)
+        interp = run["interp"]
+        key = protocol._rows_key(run)
+        row_rejected = any(event[0] == "validate_row" and event[-1] == "DataError" for event in interp.events)
+        fault = any(event[0] == "container-fault" for event in interp.events)
+        end_failed = any(event[0] == "check_at_end" and event[-1] == protocol.CHECK_BAD for event in interp.events)
+        outcome = run["outcome"]
+        if run["limit"] is not None and not row_rejected and not fault and end_failed and outcome[0] == "raise":
+            return (key, "a run with a validation limit is rejected by an end-of-data check although no row up to the limit is offending",
+                    "validate(limit) raised %s" % protocol.exc_name(outcome[1]))
+        return (key, None, None)
+
+    decide_kinds(ctx, "O7.5", "validate(limit): rejections need an offending row", "cutplace.validio.validate", cell, min_cells=40)
+
+
 def rule_until(ctx):
     """O7.3: the command line's --until reaches the API limit unchanged (-1 = no limit, 0 = nothing validated)."""
     from .c18 import rule_until as until_table
@@ -42,4 +68,4 @@ def rule_physical_rows(ctx):
 
 from .common import rule_module_state  # noqa: E402
 
-RULES = [rule_window, rule_until, rule_physical_rows, rule_module_state]
+RULES = [rule_window, rule_limit_bounds_every_rejection, rule_until, rule_physical_rows, rule_module_state]
